@@ -926,6 +926,13 @@ fn explore_exhaustive(case: &LayoutCase, flags: &Flags, n_max: usize, max_states
   // Keys that are only outputs are left to the random walks: pressing them physically multiplies the state space.
   let mut keys: Vec<KeyCode> = vec![];
   for m in &case.layout.mappings { for k in &m.from { set_insert(&mut keys, *k); } }
+  // ... except one or two of them, chosen per layout (a physically pressed output key is a case of its own)
+  {
+    let mut outs: Vec<KeyCode> = vec![];
+    for m in &case.layout.mappings { for k in &m.to { if !keys.contains(k) && !case.markers.contains(&Some(*k)) { set_insert(&mut outs, *k); } } }
+    let pick = (case.id % 7) as usize;
+    for (i, k) in outs.iter().enumerate() { if keys.len() < 9 && (i == pick % outs.len().max(1) || (i + 1 == outs.len() && case.id % 3 == 0)) { set_insert(&mut keys, *k); } }
+  }
   for k in &case.foreign { if keys.len() < 10 { set_insert(&mut keys, *k); } }
   let mut ops: Vec<Op> = vec![];
   for k in &keys { ops.push(Op::P(*k)); ops.push(Op::R(*k)); }
@@ -990,6 +997,7 @@ pub fn run(opts: &Opts) -> i32 {
   let exh_every = opts.num("exh_every", if thorough { 2 } else { 3 }) as usize;
   let exh_nmax = opts.num("exh_nmax", if thorough { 4 } else { 3 }) as usize;
   let exh_states = opts.num("exh_states", if thorough { 150000 } else { 12000 }) as usize;
+  let exh_budget = opts.num("exh_budget", if thorough { 400_000_000 } else if opts.prop == "C08" { 7_000_000 } else { 12_000_000 });
   // C08's monitor state (arming table) multiplies the state space: explore fewer layouts exhaustively there
   let (exh_every, exh_states) = if opts.prop == "C08" { (exh_every * 3, exh_states / 2) } else { (exh_every, exh_states) };
 
@@ -1019,7 +1027,10 @@ pub fn run(opts: &Opts) -> i32 {
     made += 1;
     explore_layout(&case, &flags, walks_gen, &wp, &mut rng, &mut out, &known);
     let n_trigger_keys = { let mut v: Vec<KeyCode> = vec![]; for m in &case.layout.mappings { for k in &m.from { set_insert(&mut v, *k); } } v.len() };
-    if case.source == "genE" && n_trigger_keys <= 6 && made % (if opts.prop == "C08" { 4 } else { 2 }) == 0 {
+    // the exhaustive mode has a budget of transitions per shard (a logical bound, not a clock): beyond it the
+    // remaining layouts get the random walks only
+    if out.get("exhaustive_transitions") >= exh_budget { out.count("layouts_after_exhaustive_budget_was_used"); }
+    else if case.source == "genE" && n_trigger_keys <= 6 && made % (if opts.prop == "C08" { 4 } else { 2 }) == 0 {
       // the absorbing-centric layouts are tiny: four keys held, a larger bound
       explore_exhaustive(&case, &flags, 4, exh_states * 4, &mut out, &known);
       out.count("exhaustive_layouts_4_keys_held");
